@@ -510,6 +510,6 @@ pub fn generate(seed: u64, index: usize, cfg: &GenCfg) -> Scenario {
   }
   Scenario {
     id: format!("{}-{}-{}", fam.to_lowercase(), seed, index),
-    family: fam.to_string(), nt, nr, nv, na, len, ttype, tnum, rtype, rnum, writer, prog, init, hist, note,
+    family: fam.to_string(), nt, nr, nv, na, len, ttype, tnum, rtype, rnum, writer, prog, init, hist, note, retry: false,
   }
 }
